@@ -98,6 +98,10 @@ spec fn all_nodecl(ss: Seq<Statement>) -> bool { forall|i: int| 0 <= i < ss.len(
 uninterp spec fn global_table(namespaces: HashMap<FileOrLib, HashMap<String, Name>>, namespace_to_file: HashMap<NamespaceID, FileOrLib>,
                               namespace_id: usize, name: Seq<char>) -> Option<Name>;
 
+/// which namespace a qualifier `a.b.` denotes (uninterpreted: namespace_list is outside the unit)
+uninterp spec fn ns_table(namespaces: HashMap<FileOrLib, HashMap<String, Name>>, namespace_to_file: HashMap<NamespaceID, FileOrLib>,
+                          file_to_namespace: HashMap<FileOrLib, NamespaceID>, namespace_id: usize, a: ParserAssignable) -> Option<usize>;
+
 impl Resolver {
     /// the global table, as far as the functions under contract are concerned (lookup_global is
     /// outside: it indexes two HashMaps keyed by placeholder types)
@@ -112,6 +116,10 @@ impl Resolver {
         &&& forall|ns: usize, nm: Seq<char>| (#[trigger] global_table(self.namespaces, self.namespace_to_file, ns, nm)) is Some
                 && global_table(self.namespaces, self.namespace_to_file, ns, nm)->Some_0 is Name
                 ==> (global_table(self.namespaces, self.namespace_to_file, ns, nm)->Some_0->Name_0 as int) < self.variables@.len()
+    }
+
+    spec fn ns_of(&self, namespace_id: usize, a: ParserAssignable) -> Option<usize> {
+        ns_table(self.namespaces, self.namespace_to_file, self.file_to_namespace, namespace_id, a)
     }
 
     /// frame shared by all resolving functions: the global tables are never touched, variables are
@@ -148,6 +156,10 @@ impl Resolver {
 //@ fn sylt-compiler/src/name_resolution.rs namespace_list
 //@   in Resolver
 //@   mode assumed
+//@   ret r
+//@   spec
+        ensures r == ns_table(self.namespaces, self.namespace_to_file, self.file_to_namespace, namespace_id, *assignable),
+//@   endspec
 //@ end
 //@ fn sylt-compiler/src/name_resolution.rs namespace_type_list
 //@   in Resolver
@@ -276,6 +288,9 @@ impl Resolver {
             final(self).inv(), //# C07 assignable.keeps_ids_in_range
             r is Ok ==> e_up(r->Ok_0, final(self).variables@.len() as int), //# C07,C09 assignable.result_ids_in_range
             r is Ok ==> e_shape(r->Ok_0), //# C07 assignable.result_shape
+            r is Ok && assignable.kind is Access && old(self).ns_of(assignable.span.file_id, *assignable.kind->Access_0) is Some ==>
+                r->Ok_0 is Read && old(self).global_of(old(self).ns_of(assignable.span.file_id, *assignable.kind->Access_0)->Some_0, assignable.kind->Access_1.name@)
+                    == Some(Name::Name(r->Ok_0->Read_var)), //# C09 assignable.qualified_name_is_the_module_global_never_a_local
 //@   endspec
 //@   ghost entry
         broadcast use group_up;
